@@ -37,7 +37,7 @@ INDEX_SCOPE = scope_prefix("instruction::at::", "instruction::slicing::", "<inst
 STDLIB_SCOPE = scope_prefix("stdlib::", "<stdlib::", "variable::try_from::", "<variable::Variable as std::convert::From<std::io")
 
 prop("C01",
-     [guard.run, guard.run_mustcall, misc.run_fnexit, misc.run_looptype, fold.run, scope.run],
+     [guard.run, guard.run_mustcall, misc.run_fnexit, misc.run_looptype, misc.run_slicetype, fold.run, scope.run],
      "Decides the structural half of type soundness: all 43 static checks the soundness argument leans on exist, are tested "
      "before every success value of their creation function and cannot be bypassed (R-GUARD, R-MUSTCALL); falling off a function "
      "body yields () and MissingReturn stands in front of that for non-() functions (R-FNEXIT); the Type queries that compute "
@@ -115,7 +115,7 @@ prop("C08",
      "assert-terminator inventory, cast table with dominance-verified guards, kernel table", "")
 
 prop("C09",
-     [misc.run_units, partial(panic.run, scope=INDEX_SCOPE, name="R-PANIC"), orpat.run, cast.run,
+     [misc.run_units, misc.run_slicetype, partial(panic.run, scope=INDEX_SCOPE, name="R-PANIC"), orpat.run, cast.run,
       partial(guard.run, only_variants=("CannotIndexWith", "CannotIndexInto", "CannotSlice"))],
      "Decides: unit agreement (at::exec, Slicing::exec and std.len count chars, none measures bytes; negative indices are "
      "normalised with the same len), no unchecked index in at::exec, both bounds directions raise IndexOutOfBounds, all three "
